@@ -243,7 +243,8 @@ func (env *vEnv) view(fn func(tx *bbolt.Tx)) {
 
 // ---- abstract state (spec) ----
 
-var vIds = []string{"a", "b", "c"}
+// ids in prefix relation on purpose: key-presence and seek logic must compare whole keys
+var vIds = []string{"a", "ab", "b"}
 
 type vSlot struct {
 	present bool
